@@ -11,13 +11,15 @@ from syne_tune.backend.trial_status import Status
 
 def h_loop(sym, W=2, T=2, R=2, K=1, J=0, max_fail=0, tuner_max_failures=1, crit="finished", crit_n=None,
            asynchronous=True, without_delay=True, wait=False, props=("C01", "C02", "C12"), Z=1, P=10,
-           decisions=("CONTINUE", "PAUSE", "STOP"), checkpointing=True, max_pause=1, inject_max=0, stop_lag=0):
+           decisions=("CONTINUE", "PAUSE", "STOP"), checkpointing=True, max_pause=1, inject_max=0, stop_lag=0, backend_fault_max=0):
     from syne_tune import StoppingCriterion
     mon = Monitor(sym, W, props)
     be = ScriptBackend(sym, mon, R=R, K=K, J=J, max_fail=max_fail, Z=Z, P=P, checkpointing=checkpointing, stop_lag=stop_lag)
     sch = NDS(sym, mon, T, decisions=decisions, max_pause=max_pause)
     if inject_max:
         sch.inject_at = 1 + sym.choice("inject_at", inject_max)
+    if backend_fault_max:
+        be.fault_at = 1 + sym.choice("fault_at", backend_fault_max)
     if crit_n is None:
         n = sym.int("crit_n", 0, T)
         for k in range(T + 1):      # concretise by forking
@@ -42,6 +44,13 @@ def h_loop(sym, W=2, T=2, R=2, K=1, J=0, max_fail=0, tuner_max_failures=1, crit=
     except RuntimeError as e:
         sym.check("injected" in str(e), "C12.unexpected-exception", repr(e))
         injected = True
+    except KeyError as e:
+        if not backend_fault_max:
+            raise
+        # stop_all() in the finally block raised while cleaning up after the injected backend fault
+        left = [t for t, s_ in be.wst.items() if s_ == Status.in_progress]
+        sym.violation("C12.cleanup-fails-after-backend-fault", "a backend that fails to launch trial %s makes stop_all() raise KeyError(%s) in the finally block: "
+                      "the original error is masked and trials %s are left running" % (e, e, left))
     if injected:
         # run() left by exception: nothing may be left running, final results must have been stored
         left = be.in_progress()
